@@ -106,9 +106,56 @@ def audit_axioms(modules: Dict[str, List[str]], tag: str) -> Tuple[Dict[str, Lis
 
 
 # ---------------------------------------------------------------- driver
+CORE_DRIVER_REGIONS = ["CoreKernels", "CudaKernels", "Attrs", "Utils"]
+GOOD_DRIVER = os.path.join(LEAN_DIR, ".lake", "build", "bin", "skdriver.good")
+
+
+def _gen_shas() -> Dict[str, str]:
+    import hashlib
+    d = os.path.join(LEAN_DIR, "SpecKitV", "Gen")
+    out = {}
+    for fn in sorted(os.listdir(d)) if os.path.isdir(d) else []:
+        if fn.endswith(".lean"):
+            out[fn[:-5]] = hashlib.sha256(open(os.path.join(d, fn), "rb").read()).hexdigest()
+    return out
+
+
+def remember_good_driver() -> None:
+    """after a successful driver build: keep a copy of the binary and the hashes of the generated sources it was built from"""
+    import shutil
+    exe = os.path.join(LEAN_DIR, ".lake", "build", "bin", "skdriver")
+    try:
+        shas = _gen_shas()
+        meta = GOOD_DRIVER + ".json"
+        if os.path.exists(meta) and os.path.exists(GOOD_DRIVER) and json.load(open(meta)) == shas:
+            return
+        tmp = GOOD_DRIVER + ".tmp%d" % os.getpid()
+        shutil.copy2(exe, tmp)
+        os.replace(tmp, GOOD_DRIVER)
+        write_json(meta, shas)
+    except Exception:
+        pass
+
+
+def good_driver_for(regions: List[str]) -> Tuple[Optional[str], str]:
+    """path of the last good driver if it was built from the CURRENT generated files of `regions`, else (None, reason)"""
+    meta = GOOD_DRIVER + ".json"
+    if not (os.path.exists(GOOD_DRIVER) and os.path.exists(meta)):
+        return None, "no previously built driver available"
+    try:
+        old = json.load(open(meta))
+    except Exception:
+        return None, "driver manifest unreadable"
+    cur = _gen_shas()
+    changed = [r for r in regions if old.get(r) != cur.get(r)]
+    if changed:
+        return None, "generated code of this property's own region(s) changed: " + ", ".join(changed)
+    return GOOD_DRIVER, ""
+
+
 class Driver:
-    def __init__(self):
-        exe = os.path.join(LEAN_DIR, ".lake", "build", "bin", "skdriver")
+    def __init__(self, exe: Optional[str] = None):
+        exe = exe or os.path.join(LEAN_DIR, ".lake", "build", "bin", "skdriver")
         if os.path.exists(exe):
             cmd = [exe]
         else:
